@@ -186,6 +186,21 @@ def gen_cases(rng, tier, boost=1):
     yield case
 
 
+def _resolve_refs(sess, text):
+  """Every `@[scope/]name` of a printed value with the name replaced by the complete name it resolves to in the
+  registry as it is now (the mirror holds complete names): a printed name that is unknown or ambiguous stays as it is."""
+  def repl(m):
+    scopes, _, name = m.group(1).rpartition('/')
+    try:
+      full = sess.cfg._REGISTRY.get_match(name)  # pylint: disable=protected-access
+    except Exception:  # pylint: disable=broad-except
+      return m.group(0)
+    if full is None:
+      return m.group(0)
+    return '@' + (scopes + '/' if scopes else '') + full.selector
+  return re.sub(r'@([A-Za-z_][\w./]*)', repl, text)
+
+
 def ordered_doc(sess, text):
   """(macros, sections) of a config text in text order; values kept as literal text when not plain literals."""
   names = [k for k, _ in sess.cfg._REGISTRY.items()]  # pylint: disable=protected-access
@@ -218,7 +233,7 @@ def ordered_doc(sess, text):
       try:
         val = encode(ast.literal_eval(rest.strip()), sess.gin)
       except Exception:  # pylint: disable=broad-except
-        val = {'text': ' '.join(rest.split())}   # layout (wrapping) is not structure
+        val = {'text': _resolve_refs(sess, ' '.join(rest.split()))}   # layout (wrapping) is not structure
       if in_macros:
         macros.append([key, val])
       elif cur is not None:
